@@ -10,9 +10,15 @@ CL = {(3, 1): "a refused action changed the table, the hand, or produced an acti
       (3, 7): "an accepted payment was not published as an action event when the collection completed"}
 
 
-def signature(case, step):
-    d, i = step % 10, step // 10
+def signature(case, step, code=3):
     steps = case.get("steps") or []
+    if code == 9:
+        if step < len(steps) and steps[step]["call"]["action"] == "leave" and steps[step]["call"]["why"] == "participant":
+            return "c02_sig_participant_left_mid_hand"
+        return None
+    if code != 3:
+        return None
+    d, i = step % 10, step // 10
     if i >= len(steps):
         return None
     s = steps[i]
@@ -28,7 +34,7 @@ def signature(case, step):
 
 
 def run(res, replay=None):
-    return run_hand(res, (3,), CL, replay=replay, signature=signature, decide_model=True,
+    return run_hand(res, (3, 9), CL, replay=replay, signature=signature, decide_model=True,
                     extra_assumptions=["concurrent submission of actions from many goroutines is C16's subject (engine lock); here attempts are sequential"])
 
 
